@@ -448,6 +448,7 @@ def gen_object(rng, shape, classes=None, base=0, nderiv=None, isint=None):
                 d['derivs'][key]['mrep'], d['derivs'][key]['mask'] = mrep, list(mask)
         if d['derivs']:
             d['int'] = False if cls != 'Scalar' else d['int']
+            d['dfrac'] = rng.random() < 0.5
     return d
 
 
@@ -475,6 +476,8 @@ def build_object(d, P):
         denom = tuple(dd['denom'])
         dsz = int(np.prod(denom))
         dv = (d['base'] + 10000 * (DKEY_NUM[key] + 1) + np.arange(n * isz * dsz)).astype(float)
+        if d.get('dfrac'):
+            dv = dv + 0.25          # not representable in an integer target (seeded change C10-E)
         dv = dv.reshape(shape + item + denom)
         if dd.get('bcast') and shape and n:
             # a derivative given without leading axes: insert_deriv broadcasts it (read-only) to the object's shape
@@ -545,9 +548,18 @@ def coq_entries(entries):
     return clist(out, 'entry')
 
 
+def cZq(x):
+    """a value as an integer number of quarters (the models only move values around, so the unit is immaterial)"""
+    from .lib import cZ
+    q = float(x) * 4
+    assert q == int(q), x
+    return cZ(int(q))
+
+
 def coq_plain(obs_plain, rep):
     """plain object from an observation (shape, mask, values) and its mask representation"""
-    from .lib import cbool, cZ, clist, cshape
+    from .lib import cbool, clist, cshape
+    cZ = cZq
     shape, mask, vals = obs_plain
     if rep in ('F', 'T'):
         m = 'LS %s' % cbool(rep == 'T')
@@ -559,7 +571,8 @@ def coq_plain(obs_plain, rep):
 
 def coq_eobs(obs_plain):
     """observed plain object: masked elements carry no value"""
-    from .lib import cZ, clist, cshape, copt
+    from .lib import clist, cshape, copt
+    cZ = cZq
     shape, mask, vals = obs_plain
     els = [copt(None, '(list Z)') if m else copt(clist([cZ(x) for x in row], 'Z')) for m, row in zip(mask, vals)]
     return '(%s, %s)' % (cshape(shape), clist(els, '(option (list Z))'))
